@@ -9,6 +9,10 @@ import Bee2V.C05.Spec
 import Bee2V.C05.ModelAdd
 import Bee2V.C05.ModelMul
 import Bee2V.C05.ModelBits
+import Bee2V.C05.ModelDiv
+import Bee2V.C05.ModelGcd
+import Bee2V.C05.ModelPp
+import Bee2V.C05.ModelRed
 namespace Bee2V.C05.Drv
 open Bee2V.Proto Bee2V.C05 Bee2V.C05.Spec
 
@@ -171,6 +175,19 @@ def gf2Op (W m f no : Nat) (op : String) (args : List String) : String :=
           join ["1", ho no (pmulmod x a f)]
     | _, _ => "not-in"
   | _, _ => "bad-op"
+
+/-- zzRandMod / zzRandNZMod as functions of the generator tape: chunks of O_OF_B(l) octets
+    (zeros once the tape is exhausted), trimmed to l = bitlen(mod) bits; the first acceptable one
+    among the first 65 (129 for NZ with l ≤ 16) is returned -/
+def randMod (W n m : Nat) (tape : List UInt8) (nz : Bool) : String :=
+  let l := bitSize m
+  let c := (l + 7) / 8
+  let tries := if nz ∧ l ≤ 16 then 129 else 65
+  let cand (j : Nat) : Nat := leNat ((tape.drop (j * c)).take c) % 2 ^ l
+  let good (v : Nat) : Bool := v < m && !(nz && v == 0)
+  match (List.range tries).find? (fun j => good (cand j)) with
+  | some j => join ["1", hw W n (cand j), toString ((j + 1) * c)]
+  | none => join ["0", toString (tries * c)]
 
 /-- handlers; `W` already parsed; args = tokens after W -/
 def handleW (W : Nat) (f : String) (args : List String) : Option String :=
@@ -367,6 +384,8 @@ def handleW (W : Nat) (f : String) (args : List String) : Option String :=
   | "zzPowerMod", [a, e, m] => do
     let (n, a) ← pw W a; let (_, e) ← pw W e; let (_, m) ← pw W m; some (hw W n (powMod a e m))
   | "zzPowerModW", [a, e, m] => do let a ← nat a; let e ← nat e; let m ← nat m; some (toString (powMod a e m))
+  | "zzRandMod", [m, tape] => do let (n, m) ← pw W m; let t ← parseHex tape; some (randMod W n m t false)
+  | "zzRandNZMod", [m, tape] => do let (n, m) ← pw W m; let t ← parseHex tape; some (randMod W n m t true)
   -- -------------------------------------------------------- zz reductions
   | "zzRed", [a, m] => do let (_, a) ← pw W a; let (n, m) ← pw W m; some (hw W n (a % m))
   | "zzRedBarrStart", [m] => do let (n, m) ← pw W m; some (hw W (n + 2) (Bn W (2 * n) / m))
@@ -544,6 +563,47 @@ def modelW (W : Nat) (f : String) (args : List String) : Option String :=
   | "zzRedCrand", [a, m] => do
     let a ← wl W a; let m ← wl W m
     some (join [hl W (zzRedCrand_safe W a m), hl W (zzRedCrand_fast W a m)])
+  -- ModelRed (Crandall-Montgomery and Barrett reductions, word lists)
+  | "zzRedCrandMont", [a, m] => do
+    let a ← wl W a; let m ← wl W m
+    let mp := negInvModel W (m.headD 1)
+    some (join [hl W (zzRedCrandMont_safe W a m mp), hl W (zzRedCrandMont_fast W a m mp)])
+  | "zzRedBarrStart", [m] => do let m ← wl W m; some (hl W (zzRedBarrStart W m))
+  | "zzRedBarr", [a, m] => do
+    let a ← wl W a; let m ← wl W m
+    let p := zzRedBarrStart W m
+    some (join [hl W (zzRedBarr_safe W a m p), hl W (zzRedBarr_fast W a m p)])
+  -- ModelDiv (Knuth D, word lists)
+  | "zzDiv", [_, a, b] => do
+    let a ← wl W a; let b ← wl W b
+    let r := zzDiv W a b
+    some (join [hl W r.1, hl W r.2])
+  | "zzMod", [_, a, b] => do let a ← wl W a; let b ← wl W b; some (hl W (zzMod W a b))
+  -- ModelGcd (binary algorithms, value level)
+  | "zzGCD", [a, b] => do let (n, a) ← pw W a; let (m, b) ← pw W b; some (hw W (min n m) (zzGCDV a b))
+  | "zzExGCD?", [a, b, d, da, db] => do
+    let (n, a) ← pw W a; let (m, b) ← pw W b
+    let (k, d) ← pw W d; let (m1, da) ← pw W da; let (n1, db) ← pw W db
+    let r := zzExGCDV a b
+    some (b01 (k == min n m && m1 == m && n1 == n && d == r.1 && da == r.2.1 && db == r.2.2))
+  | "zzInvMod", [_, a, m] => do let (n, a) ← pw W a; let (_, m) ← pw W m; some (hw W n (zzDivModV 1 a m))
+  | "zzDivMod", [_, d, a, m] => do
+    let (n, d) ← pw W d; let (_, a) ← pw W a; let (_, m) ← pw W m; some (hw W n (zzDivModV d a m))
+  | "zzAlmostInvMod?", [a, m, b, k] => do
+    let (n, a) ← pw W a; let (_, m) ← pw W m; let (n1, b) ← pw W b; let k ← nat k
+    let r := zzAlmostInvModV a m
+    -- for gcd(a, mod) != 1 the header fixes b = 0 only (k is whatever the loop count was)
+    some (b01 (n1 == n && b == r.1 && (k == r.2 || r.1 == 0)))
+  -- ModelPp (binary algorithms over GF(2)[x], value level)
+  | "ppGCD", [a, b] => do let (n, a) ← pw W a; let (m, b) ← pw W b; some (hw W (min n m) (ppGCDV a b))
+  | "ppExGCD?", [a, b, d, da, db] => do
+    let (n, a) ← pw W a; let (m, b) ← pw W b
+    let (k, d) ← pw W d; let (m1, da) ← pw W da; let (n1, db) ← pw W db
+    let r := ppExGCDV a b
+    some (b01 (k == min n m && m1 == m && n1 == n && d == r.1 && da == r.2.1 && db == r.2.2))
+  | "ppInvMod", [_, a, m] => do let (n, a) ← pw W a; let (_, m) ← pw W m; some (hw W n (ppInvModV a m))
+  | "ppDivMod", [_, d, a, m] => do
+    let (n, d) ← pw W d; let (_, a) ← pw W a; let (_, m) ← pw W m; some (hw W n (ppDivModV d a m))
   -- ModelBits
   | "wwIsW", [a, x] => do let a ← wl W a; let x ← nat x; some (join [b01 (wwIsW_safe a x), b01 (wwIsW_fast a x)])
   | "wwIsRepW", [a, x] => do let a ← wl W a; let x ← nat x; some (join [b01 (wwIsRepW_safe a x), b01 (wwIsRepW_fast a x)])
